@@ -8,6 +8,7 @@ mod c16;
 mod e2;
 mod fam;
 mod histpub;
+mod longscan;
 
 use refsem::evidence::{machinery, parse_args};
 
